@@ -14,7 +14,6 @@ git -C $S/repo checkout -q -- . ; git -C $S/repo clean -fdq
 mkdir -p $S/verif
 rsync -a --delete --exclude .cache --exclude out --exclude .git --exclude 'seeded' /verif/ $S/verif/
 sed -i "s#path = \"/repo\"#path = \"$S/repo\"#" $S/verif/harness/Cargo.toml
-sed -i "s#/verif/.cache/harness-target#$S/verif/.cache/harness-target#" $S/verif/harness/.cargo/config.toml
 # reuse compiled artefacts where possible
 if [ ! -d $S/verif/.cache/harness-target ]; then mkdir -p $S/verif/.cache; cp -a /verif/.cache/harness-target $S/verif/.cache/ 2>/dev/null; fi
 case "$patch" in
